@@ -12,6 +12,7 @@ import (
 	"testing"
 
 	"github.com/panjf2000/gnet/v2/internal/verifmc/seqmc"
+	bsPool "github.com/panjf2000/gnet/v2/pkg/pool/byteslice"
 )
 
 var errBoom = errors.New("boom")
@@ -213,6 +214,7 @@ func (m *c09) state() string {
 
 // invariants checks the getters and the whole content against the reference.
 func (m *c09) invariants(op string) (string, string) {
+	churnPool(m.rb.Cap(), m.rb.Cap()/2, 1024, 2048)
 	rb := m.rb
 	if rb.Buffered() != len(m.ref) {
 		return fmt.Sprintf("after %s: Buffered()=%d, reference holds %d bytes %s", op, rb.Buffered(), len(m.ref), m.state()), opName(op) + ":buffered"
@@ -490,4 +492,23 @@ func opName(op string) string {
 		}
 	}
 	return op
+}
+
+// churnPool plays an unrelated user of the shared byte-slice pool: whatever memory the buffer
+// under test still references must not be handed out by the pool.
+func churnPool(sizes ...int) {
+	var held [][]byte
+	for _, k := range sizes {
+		if k > 0 {
+			b := bsPool.Get(k)
+			full := b[:cap(b)]
+			for i := range full {
+				full[i] = 0xA5
+			}
+			held = append(held, b)
+		}
+	}
+	for _, b := range held {
+		bsPool.Put(b)
+	}
 }
